@@ -37,13 +37,25 @@ def run(cmd, cwd=None, timeout=None, env=None, out=None):
     e = dict(ENV)
     if env:
         e.update(env)
+    # own process group: on a time-out the whole tree goes (cargo's child - a hanging test binary - would otherwise
+    # survive as an orphan and keep a core busy for hours)
+    proc = subprocess.Popen(cmd, cwd=cwd, env=e, stdout=subprocess.PIPE, stderr=subprocess.STDOUT,
+                            start_new_session=True)
     try:
-        p = subprocess.run(cmd, cwd=cwd, env=e, stdout=subprocess.PIPE, stderr=subprocess.STDOUT,
-                           timeout=timeout)
-        text = p.stdout.decode("utf-8", "replace")
-        rc = p.returncode
-    except subprocess.TimeoutExpired as ex:
-        text = (ex.stdout or b"").decode("utf-8", "replace") + "\n<<TIMEOUT>>\n"
+        out_b, _ = proc.communicate(timeout=timeout)
+        text = out_b.decode("utf-8", "replace")
+        rc = proc.returncode
+    except subprocess.TimeoutExpired:
+        import signal
+        try:
+            os.killpg(proc.pid, signal.SIGKILL)
+        except OSError:
+            pass
+        try:
+            out_b, _ = proc.communicate(timeout=30)
+        except Exception:
+            out_b = b""
+        text = (out_b or b"").decode("utf-8", "replace") + "\n<<TIMEOUT>>\n"
         rc = 124
     if out:
         with open(out, "w") as f:
